@@ -44,6 +44,11 @@ class T(tuple):
 Img = T("Img")
 MaskE = T("MaskE")
 FalseC = T("FalseC")
+# the mask argument read as an array of INTEGER dtype with values 0 / non-zero (the "integer mask" interpretation used to
+# document finding F24): not a boolean array, so x[mask] is integer fancy indexing and ~mask is a bitwise complement;
+# only operations that look at truthiness (logical_not/and, == 0, binary_erosion, casts to bool, the C kernel's != 0)
+# turn it into the mask proper
+MaskRaw = T("MaskRaw")
 
 
 def Const(name): return T("Const", str(name))
@@ -69,6 +74,11 @@ def Stack(*ts): return T("Stack", tuple(ts))      # internal: a 3-d stack whose 
 def And(m1, m2):
     """logical_and(m1, m2) as the language sees it: m2 where m1, else False"""
     return Select(m2, m1, FalseC)
+
+
+def truth(t):
+    """the boolean array of the truthiness of t"""
+    return MaskE if t == MaskRaw else t
 
 
 def is_const(t):
@@ -452,6 +462,8 @@ class Interp:
             return Seq(*parts)
         if isinstance(n, ast.UnaryOp):
             t = self.ev(n.operand, env)
+            if isinstance(n.op, ast.Invert) and t == MaskRaw:
+                return Pw("bitwise_invert", t)              # ~mask on an integer mask: -1 / -2 (254 / 255), not a complement
             if isinstance(n.op, (ast.Invert, ast.Not)):
                 return Not(t)
             return t if kernel_shape(t) else Pw("neg", t)
@@ -474,10 +486,10 @@ class Interp:
                 if is_const(l) and is_const(r):
                     return Const("is")
                 raise Unsupported("`is`/`in` on an array outside a recognised mask test")
-            if isinstance(op, ast.Eq) and r == FalseC and is_boolish(l):
-                return Not(l)                                # m == False, m == 0
-            if isinstance(op, ast.NotEq) and r == FalseC and is_boolish(l):
-                return l                                     # m != 0
+            if isinstance(op, ast.Eq) and r == FalseC and (is_boolish(l) or l == MaskRaw):
+                return Not(truth(l))                         # m == False, m == 0
+            if isinstance(op, ast.NotEq) and r == FalseC and (is_boolish(l) or l == MaskRaw):
+                return truth(l)                              # m != 0
             ts = [t for t in (l, r) if not is_const(t)]
             return Pw(type(op).__name__.lower(), *ts) if ts else Const("cmp")
         if isinstance(n, ast.BoolOp):
@@ -601,6 +613,9 @@ class Interp:
             if f in ("astype", "copy"):
                 if is_const(r):
                     return r if kernel_shape(r) else Const("method")
+                if r == MaskRaw:
+                    tobool = any(a in (Const("$bool"), Const(".bool_"), Const("'bool'")) for a in args + list(kws.values()))
+                    return MaskE if (f == "astype" and tobool) else r          # other dtypes keep the values
                 return r if (f == "astype" and is_masklike(r)) else Pw(f, r)
             if is_const(r) and not arr:
                 return Const("method")
@@ -635,7 +650,7 @@ class Interp:
             bv = [k for k in n.keywords if k.arg == "border_value"]
             if len(bv) != 1 or not (isinstance(bv[0].value, ast.Constant) and bv[0].value.value == 0) or len(n.keywords) != 1:
                 raise Unsupported("binary_erosion without border_value=0")
-            return Erode(1, args[0]) if not is_const(args[0]) else Const("erode(..)")
+            return Erode(1, truth(args[0])) if not is_const(args[0]) else Const("erode(..)")
         if not arr:
             if f == "generate_binary_structure":
                 return Const(ast.unparse(n).replace(" ", "").split(".")[-1])
@@ -653,7 +668,7 @@ class Interp:
         if f == "_filter.masked_convolution" and len(args) == 3 and not kws:
             if not is_const(args[2]):
                 raise Unsupported("masked_convolution with a data-dependent kernel")
-            return MConv("kernel", args[0], args[1])
+            return MConv("kernel", args[0], truth(args[1]))          # the C kernel tests mask != 0
         if f == "extract_from_image_lookup" and len(args) == 3 and not kws:
             # _cpmorphology2.pyx: output = zeros; output[i-1, j-1] = orig_image[i-1, j-1]
             idx = [a for a in args[1:] if not is_const(a)]
@@ -666,9 +681,12 @@ class Interp:
                 raise Unsupported("np.where on an image-independent condition")
             return Select(args[1], args[0], args[2])           # np.where(c, a, b): a where c else b
         if f == "logical_and" and len(args) == 2 and not kws:
-            return And(args[0], args[1])
+            return And(truth(args[0]), truth(args[1]))
         if f == "logical_not" and len(args) == 1:
-            return Not(args[0])
+            return Not(truth(args[0]))
+        if f in CONVERSIONS and args and args[0] == MaskRaw and len(arr) == 1:
+            tobool = any(a in (Const("$bool"), Const(".bool_"), Const("'bool'")) for a in args[1:] + list(kws.values()))
+            return MaskE if tobool else MaskRaw              # np.asarray(mask, bool) / np.array(mask, np.uint8)
         if f in ("invert", "bitwise_not") and len(args) == 1 and not kws and is_boolish(args[0]):
             return Not(args[0])
         if f in CONVERSIONS and len(arr) == 1 and is_masklike(args[0]) and f != "copy":
@@ -1109,7 +1127,7 @@ class Interp:
         return True
 
 
-def translate(module, name, image_param=None, callables=(), struct_id=0):
+def translate(module, name, image_param=None, callables=(), struct_id=0, int_mask=False):
     module.struct_id = struct_id          # index of the abstract structure used by loop summaries
     fn = module.funcs[name]
     params = [a.arg for a in fn.args.args]
@@ -1121,7 +1139,7 @@ def translate(module, name, image_param=None, callables=(), struct_id=0):
     env[image_param or params[0]] = Img
     if "mask" not in params:
         raise Unsupported("no mask parameter")
-    env["mask"] = MaskE
+    env["mask"] = MaskRaw if int_mask else MaskE
     return Interp(module, fn, env).run_function()
 
 
@@ -1141,6 +1159,8 @@ def _lower(t):
     k = t[0]
     if k in ("Img", "MaskE", "FalseC", "Const"):
         return t
+    if k == "MaskRaw":
+        return MaskE                                      # same data; what differed is how the code may use it
     if k == "Not":
         return Pw("not", lower(t[1]))
     if k == "Stack":
